@@ -537,6 +537,29 @@ CORPUS["C14"] += [B("edge mesh stores unit vectors under 'directions'", "R14.12"
                   B("edge mesh stores lengths under swapped keys", "R14.12", (EMESH, "        h5group[\"edge_lengths\"] = self.edge_lengths\n        h5group[\"dual_edge_lengths\"] = self.dual_edge_lengths\n", "        h5group[\"edge_lengths\"] = self.dual_edge_lengths\n        h5group[\"dual_edge_lengths\"] = self.edge_lengths\n")),
                   B("options module postpones its annotations", "R14.2", (OPTIONS, "from dataclasses import dataclass\n", "from __future__ import annotations\n\nfrom dataclasses import dataclass\n"))]
 
+
+MEMB_OLD = "        mask = self.film.contains_points(points, radius=radius) & ~np.logical_or.reduce(\n            [hole.contains_points(points, radius=-radius) for hole in self.holes]\n        )\n"
+MEMB_LAST = (DEVICE, MEMB_OLD, "        points = np.atleast_2d(points)\n        mask = self.film.contains_points(points, radius=radius)\n        in_film = np.where(mask)[0]\n        for hole in self.holes:\n            mask[in_film] = ~hole.contains_points(points[in_film], radius=-radius)\n")
+MEMB_LOOP = (DEVICE, MEMB_OLD, "        points = np.atleast_2d(points)\n        mask = self.film.contains_points(points, radius=radius)\n        in_film = np.where(mask)[0]\n        for hole in self.holes:\n            mask[in_film] &= ~hole.contains_points(points[in_film], radius=-radius)\n")
+MEMB_AND = (DEVICE, MEMB_OLD, "        mask = self.film.contains_points(points, radius=radius)\n        for hole in self.holes:\n            mask = mask & ~hole.contains_points(points, radius=-radius)\n")
+MEMB_ALL = (DEVICE, MEMB_OLD, MEMB_OLD.replace("np.logical_or.reduce", "np.logical_and.reduce"))
+CORPUS["C18"] += [B("only the last hole is excluded (masked store in a loop)", "R18.5", MEMB_LAST), B("points must be in every hole to be excluded", "R18.5", MEMB_ALL),
+                  E("holes excluded one by one with &= on the in-film selection", MEMB_LOOP), E("holes excluded one by one with &", MEMB_AND)]
+K0_OLD = "        K0 = 4 * self.coherence_length * self.Bc2 / (ureg(\"mu_0\") * self.Lambda)\n        return K0.to_base_units()\n"
+K0_MEMO = [(DEVICE, K0_OLD, "        if getattr(self, \"_K0\", None) is None:\n            K0 = 4 * self.coherence_length * self.Bc2 / (ureg(\"mu_0\") * self.Lambda)\n            self._K0 = K0.to_base_units()\n        return self._K0\n"),
+           (DEVICE, "        self._triangulation: Optional[Triangulation] = None\n", "        self._triangulation: Optional[Triangulation] = None\n        self._K0 = None\n")]
+K0_MEMO2 = [(DEVICE, K0_OLD, "        if self._K0 is None:\n            K0 = 4 * self.coherence_length * self.Bc2 / (ureg(\"mu_0\") * self.Lambda)\n            self._K0 = K0.to_base_units()\n        return self._K0\n"),
+            (DEVICE, "        self._triangulation: Optional[Triangulation] = None\n", "        self._triangulation: Optional[Triangulation] = None\n        self._K0 = None\n")]
+CORPUS["C13"] += [B("Device.K0 memoised on the device", "R13.9", *K0_MEMO2)]
+CORPUS["C08"] += [B("Device.K0 memoised on the device", "R08.7", *K0_MEMO2)]
+CORPUS["C01"] += [B("Device.K0 memoised on the device", "R01.8", *K0_MEMO2)]
+CORPUS["C12"] += [B("adaptive_window and max_solve_retries declared in the other order", "R12.7", (OPTIONS, "    adaptive_window: int = 10\n    max_solve_retries: int = 10\n", "    max_solve_retries: int = 10\n    adaptive_window: int = 10\n"))]
+CODE_CMP = "        if self.func.__code__ != other.func.__code__:\n"
+CORPUS["C16"] += [B("leaf equality compares only co_code and co_consts", "R16.11", (PARAM, CODE_CMP, "        if (self.func.__code__.co_code, self.func.__code__.co_consts) != (other.func.__code__.co_code, other.func.__code__.co_consts):\n")),
+                  E("leaf equality compares the functions themselves first", (PARAM, CODE_CMP, "        if self.func is not other.func and self.func.__code__ != other.func.__code__:\n"))]
+CORPUS["C20"] += [B("positions handed to cdist as given", "R20.11", (SOLN, "        positions = np.atleast_2d(np.asarray(positions, dtype=float))\n", "        positions = np.atleast_2d(positions)\n")),
+                  E("positions converted with astype(float)", (SOLN, "        positions = np.atleast_2d(np.asarray(positions, dtype=float))\n", "        positions = np.atleast_2d(positions).astype(float)\n"))]
+
 # ---------------------------------------------------------------------------
 # generic behaviour-preserving transformations of the anchor functions
 # ---------------------------------------------------------------------------
